@@ -571,6 +571,80 @@ def g_bump_spike(rng):
     return [ring + [ring[0]]], b + rng.choice([0.5, 1, 0.25])
 
 
+# ---- rings with an exact number of vertices around the node capacity (16) of the per-ring vertex index used by RingHull and
+# TPVWSimplifier (VertexSequencePackedRtree): 16k distinct vertices (16k+1 coordinates) and +-1, with needles / notches so that
+# corner triangles contain other vertices of the same ring (the removals that the index must block)
+def pad_ring(rng, ring, target):
+    """insert lattice points ON edges (collinear vertices) until the closed ring has `target` distinct vertices; ring scaled x4 first"""
+    pts = [(4 * x, 4 * y) for x, y in ring[:-1]]
+    guard = 0
+    while len(pts) < target and guard < 2000:
+        guard += 1
+        i = rng.randrange(len(pts)); a = pts[i]; b = pts[(i + 1) % len(pts)]
+        g = math.gcd(abs(b[0] - a[0]), abs(b[1] - a[1]))
+        if g < 2:
+            continue
+        k = rng.randint(1, g - 1)
+        q = (a[0] + (b[0] - a[0]) // g * k, a[1] + (b[1] - a[1]) // g * k)
+        pts.insert(i + 1, q)
+    return pts + [pts[0]]
+
+
+def g_comb(rng, units):
+    """rectangle with `units` bump-and-spike pairs: a low bump on the top side with a thin spike from the bottom side reaching into it
+    (the bump's corner triangle contains the spike tip), and needles on the sides"""
+    w = 6 * units + 4; h = rng.randint(6, 14)
+    top = [(w, h)]; bottom = [(0, 0)]
+    for u in range(units):
+        c = 4 + 6 * u
+        b = rng.randint(2, 4)
+        bottom += [(c - 1, 0), (c, h + b - 1), (c + 1, 0)]
+    bottom.append((w, 0))
+    for u in reversed(range(units)):
+        c = 4 + 6 * u
+        b = bottom[1 + 3 * u + 1][1] - h + 1
+        top += [(c + 1, h), (c, h + b), (c - 1, h)]
+    top.append((0, h))
+    return bottom + top + [(0, 0)]
+
+
+def g_needle_ring(rng):
+    kind = rng.choice(['comb', 'comb', 'star', 'star', 'lattice'])
+    if kind == 'comb':
+        ring = g_comb(rng, rng.randint(1, 4))
+    elif kind == 'star':
+        R = rng.choice([20, 40, 100])
+        ring = g_star(rng, rng.choice([10, 14, 20, 30, 40]), R, rmin=max(2, R // rng.choice([3, 6, 12])))
+    else:
+        ring = None
+        for _ in range(20):
+            k, rings = gen_polygon(rng, True)
+            if k == 'lattice':
+                ring = rings[0]; break
+        if ring is None:
+            ring = g_comb(rng, 2)
+    nd = len(ring) - 1
+    base = next(t for t in (16, 32, 48, 64, 80, 96, 112, 128) if t + 1 >= nd)
+    target = max(nd, base + rng.choice([0, 0, 0, 0, 1, -1]))
+    ring = pad_ring(rng, ring, target)
+    if rng.random() < 0.5:
+        ring = lattice_map(rng, ring[:-1]); ring = ring + [ring[0]]
+    if area2(ring) < 0:
+        ring = ring[::-1]
+    k = rng.randrange(len(ring) - 1); ring = ring[k:-1] + ring[:k] + [ring[k]]
+    return kind, ring
+
+
+def gen_needle_polygon(rng):
+    """the needle ring as a shell, or as the hole of a box (hole hulls are computed with the opposite side)"""
+    kind, ring = g_needle_ring(rng)
+    if rng.random() < 0.6:
+        return 'needle16:' + kind + ':shell', [ring]
+    xs = [p[0] for p in ring]; ys = [p[1] for p in ring]; m = rng.randint(8, 40)
+    box = [(min(xs) - m, min(ys) - m), (max(xs) + m, min(ys) - m), (max(xs) + m, max(ys) + m), (min(xs) - m, max(ys) + m), (min(xs) - m, min(ys) - m)]
+    return 'needle16:' + kind + ':hole', [box, ring[::-1]]
+
+
 def gen_geometry(rng, quick):
     """a geometry value + a label: lines, closed lines, polygons with holes, multi-geometries, collections"""
     r = rng.random()
@@ -1167,7 +1241,11 @@ def stream_hull(ctx, rr, n):
     rng = ctx.rng
     cases = []
     for _ in range(n):
-        if rng.random() < 0.7:
+        r0 = rng.random()
+        if r0 < 0.25:
+            label, rings = gen_needle_polygon(rng)
+            g = ('Polygon', rings)
+        elif r0 < 0.75:
             label, rings = gen_polygon(rng, ctx.quick)
             g = ('Polygon', rings)
         else:
@@ -1185,6 +1263,8 @@ def stream_hull(ctx, rr, n):
                 label, rings = gen_polygon(rng, ctx.quick); g = ('Polygon', rings)
         mode = rng.choice([0, 1, 2])
         param = rng.choice([0, 1, 0.5, 0.1, 0.9, 0.25, round(rng.random(), 3), rng.random()])
+        if label.startswith('needle16') and rng.random() < 0.7:
+            param = rng.choice([0, 0.1, 0.2, 0.3, 0.5]) if mode != 2 else rng.choice([0.05, 0.2, 0.5, 1])
         cases.append(dict(label=label, geom=g, outer=rng.choice([0, 1]), mode=mode, param=param))
     res = judge_hull(rr, cases)
     dist = {}
@@ -1323,6 +1403,21 @@ def stream_cov(ctx, rr, n):
     rng = ctx.rng
     cases = []
     for _ in range(n):
+        if rng.random() < 0.2:
+            # free rings (no nodes) with 16k / 16k+-1 vertices: an island filling the hole of a box, isolated polygons
+            kind, ring = g_needle_ring(rng)
+            xs = [p[0] for p in ring]; ys = [p[1] for p in ring]; m = rng.randint(8, 40)
+            box = [(min(xs) - m, min(ys) - m), (max(xs) + m, min(ys) - m), (max(xs) + m, max(ys) + m), (min(xs) - m, max(ys) + m), (min(xs) - m, min(ys) - m)]
+            c = rng.random()
+            if c < 0.5:
+                elems = [[[box, ring[::-1]]], [[ring]]]
+            elif c < 0.75:
+                elems = [[[ring]], [[[(x + 3 * (max(xs) - min(xs)) + 50, y) for x, y in box]]]]
+            else:
+                elems = [[[box, ring[::-1]]], [[[(x + 3 * (max(xs) - min(xs)) + 200, y) for x, y in ring]]]]
+            tol = rng.choice([2, 4, 8, 12, 20, 40, 100])
+            cases.append(dict(elems=elems, tol=tol, preserve=rng.choice([0, 1]), needle=True))
+            continue
         elems = gen_coverage(rng, ctx.quick)
         if not elems:
             continue
@@ -1336,13 +1431,14 @@ def stream_cov(ctx, rr, n):
     cases.append(dict(elems=[[[sq(0, 0, 30, 30), [(10, 10), (10, 20), (15, 21), (20, 20), (20, 10), (10, 10)]]],
                              [[[(10, 10), (20, 10), (20, 20), (15, 21), (10, 20), (10, 10)]]]], tol=3, preserve=0))
     res = judge_cov(rr, cases)
-    dist = dict(n=0, skipped_invalid_input=0, dropped=0, preserve=0, with_nodes3=0, multipolygon_members=0, holes=0, tol0=0)
+    dist = dict(n=0, skipped_invalid_input=0, dropped=0, preserve=0, with_nodes3=0, multipolygon_members=0, holes=0, tol0=0, free_ring_16k=0)
     for i, (c, v) in enumerate(zip(cases, res)):
         dist['n'] += 1
         if v['status'] == 'skip':
             dist['skipped_invalid_input'] += 1; continue
         ctx.count(('cov', c['line']), bool(v.get('dropped')))
         dist['dropped'] += 1 if v.get('dropped') else 0; dist['preserve'] += c['preserve']; dist['tol0'] += 1 if c['tol'] == 0 else 0
+        dist['free_ring_16k'] += 1 if c.get('needle') else 0
         dist['with_nodes3'] += 1 if int(v.get('nodes', '0 0').split()[0]) > 0 else 0
         dist['multipolygon_members'] += 1 if any(len(e) > 1 for e in c['elems']) else 0
         dist['holes'] += 1 if any(len(p) > 1 for e in c['elems'] for p in e) else 0
@@ -1409,7 +1505,7 @@ def stream_derived(ctx, rr, n):
 # ------------------------------------------------------------------------------------------------ entry point
 def run(ctx):
     ctx.cov['rule'] = ('inputs: open / closed lines (random walks, zigzags at the tolerance, collinear runs and repeated points, exactly tied '
-                       'distances, vertices projecting beyond the chord, stars, thin triangles, rectilinear rings, rings whose origin is a spike beyond both neighbours), polygons with holes (lattice '
+                       'distances, vertices projecting beyond the chord, stars, thin triangles, rectilinear rings, rings whose origin is a spike beyond both neighbours, needle rings with exactly 16k / 16k+-1 vertices), polygons with holes (lattice '
                        'regions with shared wiggly edges, stars, bump-and-spike), multi-geometries, collections, edge-matched tilings with 3- and '
                        '4-way nodes, holes, islands and gaps; integer coordinates and the same mapped to full-precision binary64; tolerances 0 .. '
                        '> extent; hull parameters 0..1, both modes and sides; boundary preservation on / off. non-trivial = the call removed at '
